@@ -2,6 +2,7 @@ package vc
 
 import (
 	"fmt"
+	"os"
 	"go/types"
 	"strings"
 
@@ -38,76 +39,81 @@ func (fr *Frame) loopFrames(li *loopInfo) map[string][]Term {
 			bases[name] = nil
 		}
 	}
+	// addrBases records, for a write through addr inside the loop, the (heap name, base reference) it is
+	// confined to, or marks the heap names as unrestricted when no loop-invariant base can be named.
+	addrBases := func(addr ssa.Value) {
+		if rootAllocIn(li, addr) {
+			// a variable declared inside the loop body: a fresh object in every iteration
+			for _, n := range fr.staticHeapNames(addr) {
+				touch(n)
+			}
+			return
+		}
+		names := fr.staticHeapNames(addr)
+		ok := false
+		switch a := addr.(type) {
+		case *ssa.IndexAddr:
+			if base, okb := fr.stableSliceField(li, a.X, outside); okb {
+				// element store into a slice held in a field that the loop never rewrites
+				add(names[0], base)
+				ok = true
+			} else if outside(a.X) {
+				bv := fr.val(a.X)
+				switch a.X.Type().Underlying().(type) {
+				case *types.Slice:
+					add(names[0], vc.slice(bv).Base)
+					ok = true
+				case *types.Pointer:
+					if p := vc.ptrOf(bv); p != nil && strings.HasPrefix(p.Heap, "M|") && len(p.Path) == 0 {
+						add(names[0], p.Ref)
+						ok = true
+					} else if p != nil && !p.Obj && p.Ref != "" {
+						add(p.Heap, p.Ref)
+						ok = len(names) == 1 && names[0] == p.Heap
+					}
+				}
+			}
+		case *ssa.FieldAddr:
+			root := a
+			for {
+				if inner, isF := root.X.(*ssa.FieldAddr); isF {
+					root = inner
+					continue
+				}
+				break
+			}
+			if ia, isIA := root.X.(*ssa.IndexAddr); isIA && len(names) == 1 && strings.HasPrefix(names[0], "M|") {
+				// field of an element of a slice held in a stable field, or of a loop-invariant slice
+				if base, okb := fr.stableSliceField(li, ia.X, outside); okb {
+					add(names[0], base)
+					ok = true
+				} else if outside(ia.X) {
+					if _, isSl := ia.X.Type().Underlying().(*types.Slice); isSl {
+						add(names[0], vc.slice(fr.val(ia.X)).Base)
+						ok = true
+					}
+				}
+			} else if outside(root.X) {
+				if _, isPtr := root.X.Type().Underlying().(*types.Pointer); isPtr {
+					bv := fr.val(root.X)
+					if bv.P == nil && len(names) == 1 {
+						add(names[0], vc.term(bv))
+						ok = true
+					}
+				}
+			}
+		}
+		if !ok {
+			for _, n := range names {
+				unrestricted[n] = true
+			}
+		}
+	}
 	for _, b := range sortedBlocks(li.blocks) {
 		for _, in := range b.Instrs {
 			switch x := in.(type) {
 			case *ssa.Store:
-				if rootAllocIn(li, x.Addr) {
-					// a variable declared inside the loop body: a fresh object in every iteration
-					for _, n := range fr.staticHeapNames(x.Addr) {
-						touch(n)
-					}
-					continue
-				}
-				names := fr.staticHeapNames(x.Addr)
-				ok := false
-				switch a := x.Addr.(type) {
-				case *ssa.IndexAddr:
-					if base, okb := fr.stableSliceField(li, a.X, outside); okb {
-						// element store into a slice held in a field that the loop never rewrites
-						add(names[0], base)
-						ok = true
-					} else if outside(a.X) {
-						bv := fr.val(a.X)
-						switch a.X.Type().Underlying().(type) {
-						case *types.Slice:
-							add(names[0], vc.slice(bv).Base)
-							ok = true
-						case *types.Pointer:
-							if p := vc.ptrOf(bv); p != nil && strings.HasPrefix(p.Heap, "M|") && len(p.Path) == 0 {
-								add(names[0], p.Ref)
-								ok = true
-							} else if p != nil && !p.Obj && p.Ref != "" {
-								add(p.Heap, p.Ref)
-								ok = len(names) == 1 && names[0] == p.Heap
-							}
-						}
-					}
-				case *ssa.FieldAddr:
-					root := a
-					for {
-						if inner, isF := root.X.(*ssa.FieldAddr); isF {
-							root = inner
-							continue
-						}
-						break
-					}
-					if ia, isIA := root.X.(*ssa.IndexAddr); isIA && len(names) == 1 && strings.HasPrefix(names[0], "M|") {
-						// field of an element of a slice held in a stable field, or of a loop-invariant slice
-						if base, okb := fr.stableSliceField(li, ia.X, outside); okb {
-							add(names[0], base)
-							ok = true
-						} else if outside(ia.X) {
-							if _, isSl := ia.X.Type().Underlying().(*types.Slice); isSl {
-								add(names[0], vc.slice(fr.val(ia.X)).Base)
-								ok = true
-							}
-						}
-					} else if outside(root.X) {
-						if _, isPtr := root.X.Type().Underlying().(*types.Pointer); isPtr {
-							bv := fr.val(root.X)
-							if bv.P == nil && len(names) == 1 {
-								add(names[0], vc.term(bv))
-								ok = true
-							}
-						}
-					}
-				}
-				if !ok {
-					for _, n := range names {
-						unrestricted[n] = true
-					}
-				}
+				addrBases(x.Addr)
 			case *ssa.MapUpdate:
 				mt := x.Map.Type().Underlying().(*types.Map)
 				d, v := vc.mapNames(mt)
@@ -147,6 +153,14 @@ func (fr *Frame) loopFrames(li *loopInfo) map[string][]Term {
 						}
 					}
 				}
+				// a callee under contract whose modifies clauses are all contents(p), p a pointer parameter:
+				// it writes exactly through the argument addresses
+				if idxs, ok := fr.contentsOnlyCall(x); ok {
+					for _, k := range idxs {
+						addrBases(x.Common().Args[k])
+					}
+					continue
+				}
 				// a callee under contract whose modifies clauses are all "param.field" with the
 				// argument for param defined outside the loop writes only through that reference
 				if pairs, ok := fr.contractCallBases(x, outside); ok {
@@ -163,6 +177,9 @@ func (fr *Frame) loopFrames(li *loopInfo) map[string][]Term {
 				}
 			}
 		}
+	}
+	if os.Getenv("VERIF_DEBUG_LOOPFRAME") != "" {
+		fmt.Fprintf(os.Stderr, "loopframe %s L%d bases=%v unrestricted=%v\n", fr.fn.Name(), li.ordinal, bases, unrestricted)
 	}
 	for n := range unrestricted {
 		delete(bases, n)
@@ -248,7 +265,19 @@ func (fr *Frame) stableSliceField(li *loopInfo, x ssa.Value, outside func(ssa.Va
 		return "", false
 	}
 	fa, ok := u.X.(*ssa.FieldAddr)
-	if !ok || !outside(fa.X) {
+	if !ok {
+		return "", false
+	}
+	// root.f1.f2...: nested struct values inside one object; the root reference must be loop-invariant
+	chain := []*ssa.FieldAddr{fa}
+	for {
+		inner, isF := chain[0].X.(*ssa.FieldAddr)
+		if !isF {
+			break
+		}
+		chain = append([]*ssa.FieldAddr{inner}, chain...)
+	}
+	if !outside(chain[0].X) {
 		return "", false
 	}
 	if _, isSl := x.Type().Underlying().(*types.Slice); !isSl {
@@ -283,13 +312,20 @@ func (fr *Frame) stableSliceField(li *loopInfo, x ssa.Value, outside func(ssa.Va
 			}
 		}
 	}
-	bv := fr.val(fa.X)
+	bv := fr.val(chain[0].X)
 	if bv.P != nil {
 		return "", false
 	}
-	p := vc.fieldPtr(bv, fa.Field)
-	if p == nil {
-		return "", false
+	var p *Ptr
+	for k, f := range chain {
+		if k == 0 {
+			p = vc.fieldPtr(bv, f.Field)
+		} else {
+			p = vc.fieldPtr(&Val{P: p, Typ: types.NewPointer(p.Elem)}, f.Field)
+		}
+		if p == nil {
+			return "", false
+		}
 	}
 	v := vc.loadPtr(p, fr.cur)
 	if v == nil {
@@ -399,4 +435,54 @@ func (fr *Frame) appendOnlyField(li *loopInfo, x ssa.Value, outside func(ssa.Val
 		return "", false
 	}
 	return vc.slice(v).Base, true
+}
+
+// contentsOnlyCall: the call goes to a function under contract whose modifies clauses are all of the
+// form contents(p) with p a pointer (non-array) parameter; returns the argument positions.
+func (fr *Frame) contentsOnlyCall(x ssa.CallInstruction) ([]int, bool) {
+	cc := x.Common()
+	callee := cc.StaticCallee()
+	if callee == nil || cc.IsInvoke() {
+		return nil, false
+	}
+	c := fr.vc.P.ContractFor(callee)
+	if c == nil || c.ModAll || c.Inline || len(c.Modifies) == 0 {
+		return nil, false
+	}
+	var out []int
+	for _, m := range c.Modifies {
+		k := contentsPtrParam(m.E, callee)
+		if k < 0 || k >= len(cc.Args) {
+			return nil, false
+		}
+		out = append(out, k)
+	}
+	return out, true
+}
+
+// contentsPtrParam: e is contents(p) with p a parameter of pointer-to-non-array type; returns its index or -1.
+func contentsPtrParam(e Expr, callee *ssa.Function) int {
+	ce, ok := e.(*CallE)
+	if !ok || len(ce.Args) != 1 {
+		return -1
+	}
+	fn, _ := ce.Fun.(*Ident)
+	id, _ := ce.Args[0].(*Ident)
+	if fn == nil || fn.Name != "contents" || id == nil {
+		return -1
+	}
+	for i, prm := range callee.Params {
+		if prm.Name() != id.Name {
+			continue
+		}
+		pt, isPtr := prm.Type().Underlying().(*types.Pointer)
+		if !isPtr {
+			return -1
+		}
+		if _, isArr := pt.Elem().Underlying().(*types.Array); isArr {
+			return -1
+		}
+		return i
+	}
+	return -1
 }
